@@ -429,76 +429,232 @@ func vfC09PickDomain(rg *rand.Rand, u *vfC09Universe) string {
 	return d
 }
 
-// vfC09GenRules draws a rule list over the given outbound names (canonical, lower case).
-func vfC09GenRules(rg *rand.Rand, u *vfC09Universe, obNames []string, n int) []vfC09Rule {
-	rules := make([]vfC09Rule, n)
-	for i := range rules {
-		r := &rules[i]
-		r.Outbound = obNames[rg.Intn(len(obNames))]
+// vfC09RandAddr fills the address part of r; kind "" = draw the kind too.
+func vfC09RandAddr(rg *rand.Rand, u *vfC09Universe, r *vfC09Rule, kind string) {
+	if kind == "" {
 		switch x := rg.Intn(100); {
 		case x < 20:
-			r.Kind, r.Pattern = vfC09Exact, vfC09PickDomain(rg, u)
+			kind = vfC09Exact
 		case x < 40:
-			r.Kind, r.Pattern = vfC09Suffix, vfC09PickDomain(rg, u)
-			if rg.Intn(6) == 0 { // a bare TLD or the last two labels
-				l := strings.Split(r.Pattern, ".")
-				r.Pattern = l[len(l)-1]
-			}
+			kind = vfC09Suffix
 		case x < 60:
-			r.Kind, r.Pattern = vfC09Wild, vfC09WildPattern(rg, vfC09PickDomain(rg, u))
+			kind = vfC09Wild
 		case x < 72:
-			r.Kind = vfC09IP
-			if rg.Intn(3) != 0 {
-				r.IP = vfC09Near(rg, u.Nets4[rg.Intn(len(u.Nets4))], 24+rg.Intn(7))
-			} else {
-				r.IP = vfC09Near(rg, u.Nets6[rg.Intn(len(u.Nets6))], 120+rg.Intn(7))
-			}
+			kind = vfC09IP
 		case x < 90:
-			r.Kind = vfC09CIDR
-			if rg.Intn(3) != 0 {
-				r.Bits = []int{0, 8, 16, 20, 24, 25, 27, 30, 31, 32}[rg.Intn(10)]
-				r.IP = vfC09Mask(vfC09Near(rg, u.Nets4[rg.Intn(len(u.Nets4))], 20+rg.Intn(12)), r.Bits)
-			} else {
-				r.Bits = []int{0, 16, 32, 44, 48, 64, 96, 112, 120, 127, 128}[rg.Intn(11)]
-				r.IP = vfC09Mask(vfC09Near(rg, u.Nets6[rg.Intn(len(u.Nets6))], 100+rg.Intn(28)), r.Bits)
-			}
+			kind = vfC09CIDR
 		default:
-			r.Kind = vfC09All
+			kind = vfC09All
 		}
-		restrict := 55
-		if r.Kind == vfC09All {
-			restrict = 80
+	}
+	r.Kind = kind
+	switch kind {
+	case vfC09Exact:
+		r.Pattern = vfC09PickDomain(rg, u)
+	case vfC09Suffix:
+		r.Pattern = vfC09PickDomain(rg, u)
+		if rg.Intn(6) == 0 { // a bare TLD
+			l := strings.Split(r.Pattern, ".")
+			r.Pattern = l[len(l)-1]
 		}
-		if rg.Intn(100) < restrict {
-			r.Proto = 1 + rg.Intn(2)
+	case vfC09Wild:
+		r.Pattern = vfC09WildPattern(rg, vfC09PickDomain(rg, u))
+	case vfC09IP:
+		if rg.Intn(3) != 0 {
+			r.IP = vfC09Near(rg, u.Nets4[rg.Intn(len(u.Nets4))], 24+rg.Intn(7))
+		} else {
+			r.IP = vfC09Near(rg, u.Nets6[rg.Intn(len(u.Nets6))], 120+rg.Intn(7))
 		}
-		if rg.Intn(100) < restrict {
-			lo := u.Ports[rg.Intn(len(u.Ports))]
-			hi := lo
+	case vfC09CIDR:
+		if rg.Intn(3) != 0 {
+			r.Bits = []int{0, 8, 16, 20, 24, 25, 27, 30, 31, 32}[rg.Intn(10)]
+			r.IP = vfC09Mask(vfC09Near(rg, u.Nets4[rg.Intn(len(u.Nets4))], 20+rg.Intn(12)), r.Bits)
+		} else {
+			r.Bits = []int{0, 16, 32, 44, 48, 64, 96, 112, 120, 127, 128}[rg.Intn(11)]
+			r.IP = vfC09Mask(vfC09Near(rg, u.Nets6[rg.Intn(len(u.Nets6))], 100+rg.Intn(28)), r.Bits)
+		}
+	}
+}
+
+// vfC09RandTarget fills everything but the address: outbound, protocol, ports, hijack.
+func vfC09RandTarget(rg *rand.Rand, u *vfC09Universe, obNames []string, r *vfC09Rule) {
+	r.Outbound = obNames[rg.Intn(len(obNames))]
+	r.Proto, r.PortLo, r.PortHi, r.Hijack = vfC09Both, 0, 0, nil
+	restrict := 55
+	if r.Kind == vfC09All {
+		restrict = 80
+	}
+	if rg.Intn(100) < restrict {
+		r.Proto = 1 + rg.Intn(2)
+	}
+	if rg.Intn(100) < restrict {
+		lo := u.Ports[rg.Intn(len(u.Ports))]
+		hi := lo
+		switch rg.Intn(4) {
+		case 0:
+			hi = lo + 1
+		case 1:
+			hi = lo + 1 + rg.Intn(20)
+		case 2:
+			hi = u.Ports[rg.Intn(len(u.Ports))]
+		}
+		if hi < lo {
+			lo, hi = hi, lo
+		}
+		if hi > 65535 {
+			hi = 65535
+		}
+		r.PortLo, r.PortHi = lo, hi
+	}
+	if rg.Intn(4) == 0 {
+		if rg.Intn(3) != 0 {
+			r.Hijack = vfC09RandV4(rg)
+		} else {
+			r.Hijack = vfC09RandV6(rg)
+		}
+	}
+}
+
+func vfC09SameTarget(a, b *vfC09Rule) bool {
+	return a.Outbound == b.Outbound && a.Proto == b.Proto && a.PortLo == b.PortLo && a.PortHi == b.PortHi && vfC09HijackEq(a.Hijack, b.Hijack)
+}
+
+func vfC09CopyTarget(dst, src *vfC09Rule) {
+	dst.Outbound, dst.Proto, dst.PortLo, dst.PortHi = src.Outbound, src.Proto, src.PortLo, src.PortHi
+	dst.Hijack = append(net.IP(nil), src.Hijack...)
+}
+
+// vfC09OrderBlock builds a run of rules made for ORDER sensitivity: one address pattern
+// (exact, suffix, wildcard, IP or CIDR) occurs 2..4 times with different outbounds,
+// protocols, overlapping port ranges and hijack addresses; around and between the
+// occurrences sit exact-name rules for other names that share (outbound, proto/port, hijack)
+// with the first or the last occurrence. Any implementation that regroups, merges, sorts or
+// indexes rules must still answer as the plain file-order scan does.
+func vfC09OrderBlock(rg *rand.Rand, u *vfC09Universe, obNames []string) []vfC09Rule {
+	var base vfC09Rule
+	kind := vfC09Exact
+	if rg.Intn(5) >= 2 {
+		kind = []string{vfC09Suffix, vfC09Wild, vfC09IP, vfC09CIDR}[rg.Intn(4)]
+	}
+	vfC09RandAddr(rg, u, &base, kind)
+	reps := 2 + rg.Intn(3)
+	p0 := u.Ports[rg.Intn(len(u.Ports))]
+	occ := make([]vfC09Rule, reps)
+	for j := range occ {
+		for tries := 0; ; tries++ {
+			o := base
+			o.IP = append(net.IP(nil), base.IP...)
+			o.Outbound = obNames[rg.Intn(len(obNames))]
+			o.Proto = rg.Intn(3)
+			switch rg.Intn(5) { // port sets that overlap around p0
+			case 0:
+				o.PortLo, o.PortHi = 0, 0
+			case 1:
+				o.PortLo, o.PortHi = p0, p0
+			case 2:
+				o.PortLo, o.PortHi = p0, p0+1+rg.Intn(10)
+			case 3:
+				o.PortLo, o.PortHi = p0-1-rg.Intn(10), p0
+			default:
+				o.PortLo, o.PortHi = p0-rg.Intn(5), p0+rg.Intn(5)
+			}
+			if o.PortLo != 0 || o.PortHi != 0 {
+				if o.PortLo < 1 {
+					o.PortLo = 1
+				}
+				if o.PortHi > 65535 {
+					o.PortHi = 65535
+				}
+			}
+			if rg.Intn(3) == 0 {
+				o.Hijack = vfC09RandV4(rg)
+				if rg.Intn(3) == 0 {
+					o.Hijack = vfC09RandV6(rg)
+				}
+			}
+			// an occurrence identical in target to its predecessor would not be observable
+			if j == 0 || tries > 8 || !vfC09SameTarget(&o, &occ[j-1]) {
+				occ[j] = o
+				break
+			}
+		}
+	}
+	neighbour := func(t *vfC09Rule) (vfC09Rule, bool) {
+		for tries := 0; tries < 8; tries++ {
+			var n vfC09Rule
+			vfC09RandAddr(rg, u, &n, vfC09Exact)
+			if base.Kind == vfC09Exact && n.Pattern == base.Pattern {
+				continue
+			}
+			vfC09CopyTarget(&n, t)
+			return n, true
+		}
+		return vfC09Rule{}, false
+	}
+	first, last := &occ[0], &occ[reps-1]
+	var out []vfC09Rule
+	addNeighbours := func(max int) {
+		for i, n := 0, rg.Intn(max+1); i < n; i++ {
+			t := last
 			switch rg.Intn(4) {
 			case 0:
-				hi = lo + 1
+				t = first
 			case 1:
-				hi = lo + 1 + rg.Intn(20)
-			case 2:
-				hi = u.Ports[rg.Intn(len(u.Ports))]
+				t = &occ[rg.Intn(reps)]
 			}
-			if hi < lo {
-				lo, hi = hi, lo
-			}
-			if hi > 65535 {
-				hi = 65535
-			}
-			r.PortLo, r.PortHi = lo, hi
-		}
-		if rg.Intn(4) == 0 {
-			if rg.Intn(3) != 0 {
-				r.Hijack = vfC09RandV4(rg)
-			} else {
-				r.Hijack = vfC09RandV6(rg)
+			if nb, ok := neighbour(t); ok {
+				out = append(out, nb)
 			}
 		}
-		r.Text = vfC09RenderRule(rg, r)
+	}
+	addNeighbours(2) // leaders: same target as a LATER occurrence, ahead of the first one
+	for j := range occ {
+		out = append(out, occ[j])
+		if j < reps-1 {
+			addNeighbours(1)
+			if rg.Intn(4) == 0 { // an unrelated exact-name rule inside the run
+				var n vfC09Rule
+				vfC09RandAddr(rg, u, &n, vfC09Exact)
+				vfC09RandTarget(rg, u, obNames, &n)
+				out = append(out, n)
+			}
+		}
+	}
+	addNeighbours(1)
+	return out
+}
+
+// vfC09GenRules draws a rule list of about n rules over the given outbound names (canonical,
+// lower case): either independent random rules, or (every other list) an order-sensitivity
+// block embedded between random rules.
+func vfC09GenRules(rg *rand.Rand, u *vfC09Universe, obNames []string, n int) []vfC09Rule {
+	random := func(k int) []vfC09Rule {
+		l := make([]vfC09Rule, k)
+		for i := range l {
+			vfC09RandAddr(rg, u, &l[i], "")
+			vfC09RandTarget(rg, u, obNames, &l[i])
+		}
+		return l
+	}
+	var rules []vfC09Rule
+	if rg.Intn(2) == 0 {
+		rules = random(n)
+	} else {
+		block := vfC09OrderBlock(rg, u, obNames)
+		rest := n - len(block)
+		if rest < 0 {
+			rest = 0
+		}
+		before := 0
+		if rest > 0 && rg.Intn(2) == 0 {
+			before = rg.Intn(rest + 1)
+		}
+		rules = append(rules, random(before)...)
+		rules = append(rules, block...)
+		rules = append(rules, random(rest-before)...)
+	}
+	for i := range rules {
+		rules[i].Text = vfC09RenderRule(rg, &rules[i])
 	}
 	return rules
 }
@@ -822,11 +978,53 @@ func vfC09DeriveQueries(rg *rand.Rand, rules []vfC09Rule, u *vfC09Universe, want
 				(rules[i].PortLo+rules[i].PortHi)/2)
 		}
 	}
+	// hosts covered by an address that occurs in several rules: there the ORDER of rules decides
+	var hot []vfC09Host
+	occurs := map[string]int{}
+	akey := func(r *vfC09Rule) string { return fmt.Sprintf("%s|%s|%x|%d", r.Kind, r.Pattern, []byte(r.IP), r.Bits) }
+	for i := range rules {
+		occurs[akey(&rules[i])]++
+	}
+	for i := range rules {
+		r := &rules[i]
+		if occurs[akey(r)] < 2 {
+			continue
+		}
+		occurs[akey(r)] = 0 // once per repeated address
+		switch r.Kind {
+		case vfC09Exact:
+			hot = append(hot, vfC09Host{Name: r.Pattern})
+		case vfC09Suffix:
+			hot = append(hot, vfC09Host{Name: r.Pattern}, vfC09Host{Name: "www." + r.Pattern})
+		case vfC09Wild:
+			if n := strings.ReplaceAll(r.Pattern, "*", "x"); vfC09NameOK(n) {
+				hot = append(hot, vfC09Host{Name: n})
+			}
+		case vfC09IP, vfC09CIDR:
+			ip := r.IP
+			if r.Kind == vfC09CIDR {
+				ip = vfC09Near(rg, r.IP, r.Bits)
+			}
+			if vfC09SaneIP(ip) {
+				h := vfC09Host{}
+				if len(ip) == 4 {
+					h.V4 = ip
+				} else {
+					h.V6 = ip
+				}
+				hot = append(hot, h)
+				h.Name = names[rg.Intn(len(names))]
+				hot = append(hot, h)
+			}
+		}
+	}
 	seen := map[string]bool{}
 	var out []vfC09Query
 	for guard := 0; len(out) < want && guard < want*20; guard++ {
 		var h vfC09Host
 		switch x := rg.Intn(100); {
+		case len(hot) > 0 && x < 25: // covered by a repeated address
+			h = hot[rg.Intn(len(hot))]
 		case x < 40: // a name nobody resolved
 			h.Name = names[rg.Intn(len(names))]
 		case x < 60: // a name with resolved addresses
@@ -868,9 +1066,22 @@ func vfC09DeriveQueries(rg *rand.Rand, rules []vfC09Rule, u *vfC09Universe, want
 		}
 		var ports []int
 		if len(cand) > 0 && rg.Intn(5) != 0 {
-			r := &rules[cand[rg.Intn(len(cand))]]
-			if r.PortLo != 0 {
-				ports = []int{r.PortLo - 1, r.PortLo, r.PortHi, r.PortHi + 1, (r.PortLo + r.PortHi) / 2}
+			probe := []int{cand[rg.Intn(len(cand))]}
+			if len(cand) >= 2 && rg.Intn(2) == 0 { // several rules cover this host: the edges of all of them
+				probe = cand
+			}
+			dup := map[int]bool{}
+			for _, ci := range probe {
+				r := &rules[ci]
+				if r.PortLo == 0 {
+					continue
+				}
+				for _, p := range []int{r.PortLo - 1, r.PortLo, r.PortHi, r.PortHi + 1, (r.PortLo + r.PortHi) / 2} {
+					if !dup[p] && len(ports) < 12 {
+						dup[p] = true
+						ports = append(ports, p)
+					}
+				}
 			}
 		}
 		if ports == nil {
